@@ -203,6 +203,25 @@ def build_cases(ck, wd, cfg):
             for o in outfmts:
                 add(["%s..%s" % (i, o), p], "ok", "untitled %s file -> %s" % (i, o))
             add(["auto..xyz", p], "ok", "untitled %s file via auto -> xyz" % i)
+    # 1c. structures without atoms (titled and untitled), from a file and from standard input, to every output format:
+    #     the writers end such texts differently (blank title line, no trailing record), the command must not re-format them
+    from diffpy.structure import Structure as _S
+
+    for tag, title in (("untitled", ""), ("titled", "no atoms here")):
+        e = _S(title=title)
+        for i in outfmts:
+            if i not in infmts:
+                continue
+            try:
+                txt = e.writeStr(i)
+            except Exception:
+                continue
+            p = os.path.join(wd, "empty_%s.%s" % (tag, i))
+            with open(p, "w", encoding="utf-8") as fh:
+                fh.write(txt)
+            for o in (outfmts if (not quick or i in ("xyz", "pdffit")) else ["xyz", "rawxyz"]):
+                add(["%s..%s" % (i, o), p], "any", "%s empty %s file -> %s" % (tag, i, o))
+                add(["%s..%s" % (i, o), "-"], "any", "%s empty %s on stdin -> %s" % (tag, i, o), stdin=txt.encode("utf-8"))
     # 2. standard input
     for i in infmts:
         f = files.get((0, i)) or files.get((0, "pdffit"))
